@@ -145,6 +145,9 @@ def math_call(ex, st, name, args):
                 r = ex.fmul(r, x)       # real product, or the uninterpreted product in units that abstract multiplication
             return RealV(r, DOUBLE)
         val = uf('pow', 2)(x, y)
+        # pow(0, negative) is a pole: the result is infinite (and 0 * inf further on is NaN) -- outside ideal arithmetic, so it has
+        # to be excluded where it is computed
+        ex.safe(st, 'pow-pole', z3.Or(y >= 0, x != 0), 'pow(x, y) with y < 0 needs x != 0 (pole: the result is not a finite number)')
         st.assume(z3.And(z3.Implies(x >= 0, val >= 0), z3.Implies(x > 0, val > 0)))     # libm axioms (DESIGN §8.2)
         return RealV(val, DOUBLE)
     if name == 'sign':
